@@ -295,9 +295,22 @@ func C04(p *ir.Program, r *report.R) {
 		// mutex held
 		for _, m := range []string{"SignVote", "SignProposal", "SignVoteWithoutSave"} {
 			f := p.Func("types", "FilePV."+m)
-			locks := ir.Calls(f, "sync.Mutex.Lock")
+			var locks []ssa.Instruction
+			nUnlock := 0
+			ir.Instrs(f, func(in ssa.Instruction) {
+				if in.Parent() != f {
+					return
+				}
+				if op, isOp := lockOpOf(in); isOp && op.Kind == "w" && op.Mtx == "&pv.mtx" {
+					if op.Acquire && !op.Deferred {
+						locks = append(locks, in)
+					} else if !op.Acquire {
+						nUnlock++
+					}
+				}
+			})
 			inner := ir.Calls(f, "types.FilePV.sign*")
-			ok := len(locks) == 1 && len(inner) == 1 && ir.Precedes(locks[0], inner[0]) && len(ir.Calls(f, "sync.Mutex.Unlock")) == 1
+			ok := len(locks) == 1 && len(inner) == 1 && ir.Precedes(locks[0], inner[0].(ssa.Instruction)) && nUnlock == 1
 			r.Check("K10", pvT+m+"/mutex", p.Pos(f.Pos()), ok, "check-sign-persist runs under pv.mtx (Lock before, deferred Unlock)")
 		}
 	}
